@@ -392,7 +392,11 @@ func RunC16(t *testing.T, spec kernel.Spec) *kernel.Outcome {
 		ucs := []op.UserCodeConfig{op.UserCodeBase20, op.UserCodeDigits, {CharSet: "äöüß€", CharAmount: 6, DashInterval: 2}, {CharSet: "AB", CharAmount: 5, DashInterval: 0},
 			{CharSet: "xyz", CharAmount: 7, DashInterval: 3}, {CharSet: "Q", CharAmount: 1, DashInterval: 1}, {CharSet: "AB", CharAmount: 1, DashInterval: 0}, {CharSet: "ABC", CharAmount: 1, DashInterval: 0}, {CharSet: "0123456789abcdef", CharAmount: 12, DashInterval: 12}}
 		uc := ucs[cfg2.Int(len(ucs))]
-		w, err := world.NewStd(o, tape, world.StdOptions{Router: spec.Params["router"], ForceCaps: &caps, ForceConfig: func(c *op.Config) { c.DeviceAuthorization.UserCode = uc }})
+		tenants := 1
+		if tc := tape.Sub("cfg-tenants"); tc.Bool(1, 3) {
+			tenants = 2 + tc.Int(2) // the verification URIs belong to the issuer of the request that started the flow
+		}
+		w, err := world.NewStd(o, tape, world.StdOptions{Router: spec.Params["router"], ForceCaps: &caps, Tenants: tenants, ForceConfig: func(c *op.Config) { c.DeviceAuthorization.UserCode = uc }})
 		if err != nil {
 			o.Infra = "world: " + err.Error()
 			return
@@ -413,6 +417,10 @@ func RunC16(t *testing.T, spec kernel.Spec) *kernel.Outcome {
 		n := 30 + tape.Sub("cfg").Int(40)
 		steps(o, tape, n, func(i int, ch *kernel.Chooser) string {
 			d.step, d.tw.step = i, i
+			if len(w.Issuers) > 1 {
+				w.UseIssuer(ch.Int(len(w.Issuers)))
+				o.Probe("multi-tenant-steps")
+			}
 			switch x := ch.Int(20); {
 			case x < 4 || i < 2:
 				return d.start(ch)
